@@ -19,6 +19,8 @@ for sd in sorted(os.listdir(os.path.join(V, 'seeded'))):
         elif x.get('exit') == 2:
             caught.append('%s: inconclusive' % p)
     note = ' '.join(m.get('note', '').split())[:200]
+    if m.get('obsolete'):
+        caught = ['obsolete: ' + m['obsolete']]
     rows.append('| %s | %s | %s | %s |' % (sd, ', '.join(files), note, '<br>'.join(caught) if caught else '**missed** (no unit covers this code yet)'))
 with open(os.path.join(V, 'seeded', 'README.md'), 'w') as f:
     f.write('# Seeded breaking changes and the checks that catch them\n\nEach change compiles, passes the whole existing test suite and breaks the named property; confirmed by `tools/seed_import.py` (see meta.json). Results from `tools/seed_run.py` (check run on a scratch copy of /repo with the patch applied).\n\n| seed | files | what it breaks / needs | caught by |\n|---|---|---|---|\n')
